@@ -45,6 +45,32 @@ pub fn prim<T: Tx>(t: &mut T, a: &[&str], out: &mut String) {
             h::flip_cw(t.s_mut(), des[i].as_undirected());
             out.push_str("R ok\n");
         }
+        "cflip" => {
+            // flip restricted to strictly convex quadrilaterals, so that the faces stay counter-clockwise
+            let c = cand_de(&|t, e| {
+                if e.index() % 2 != 0 || outer(t, e) || outer(t, e.rev()) {
+                    return false;
+                }
+                let eh = t.directed_edge(e);
+                let (a, b) = (eh.from().position(), eh.to().position());
+                let c_ = eh.prev().from().position();
+                let d_ = eh.rev().prev().from().position();
+                h::side_query(c_, d_, a).is_on_left_side() != h::side_query(c_, d_, b).is_on_left_side()
+                    && !h::side_query(c_, d_, a).is_on_line()
+                    && !h::side_query(c_, d_, b).is_on_line()
+            });
+            let Some(i) = pick(c) else { skip!() };
+            let _ = writeln!(out, " flip {}", i / 2);
+            h::flip_cw(t.s_mut(), des[i].as_undirected());
+            out.push_str("R ok\n");
+        }
+        "leg" | "legf" => {
+            if des.is_empty() { skip!() }
+            let i = sel % des.len();
+            let _ = writeln!(out, " {} {}", name, i);
+            let r = h::legalize_edge(t, des[i], name == "legf");
+            let _ = writeln!(out, "R {}", r as u8);
+        }
         "iit" => {
             let fs: Vec<FixedFaceHandle<InnerTag>> = t.fixed_inner_faces().collect();
             if fs.is_empty() { skip!() }
